@@ -83,7 +83,7 @@ fn value_text(t: &Value, extra: &mut Vec<(String, Value)>, ty: &Value) -> String
         }
         "choice" => {
             let alt = ty["alts"].as_array().and_then(|a| a.iter().find(|x| x["n"] == t["alt"])).map(|a| a["ty"].clone()).unwrap_or(json!({}));
-            format!("{}:{}", s(&t["alt"]), value_text(&t["v"], extra, &alt))
+            format!("{} : {}", s(&t["alt"]), value_text(&t["v"], extra, &alt))
         }
         "seq" => format!("{{ {} }}", t["fields"].as_array().unwrap().iter().map(|f| {
             let cty = ty["comps"].as_array().and_then(|a| a.iter().find(|x| x["n"] == f["n"])).map(|a| a["ty"].clone()).unwrap_or(json!({}));
